@@ -43,6 +43,11 @@ def main(argv=None):
     import shutil
     scratch = _scratch_dir()
     owner = os.getpid()
+    try:    # `kill -USR1 <pid>` prints where a run is (workers inherit the registration)
+        import faulthandler, signal
+        faulthandler.register(signal.SIGUSR1, all_threads=True)
+    except Exception:
+        pass
     try:
         return _main(argv)
     finally:
